@@ -576,4 +576,264 @@ theorem replace_no_internal (S : Schema) (doc : Node) (f t : Nat) (sl : Slice)
     unfold Schema.replace
     exact map_ne_internal (replaceKids_no_internal S ty kids f t sl hwf)
 
+/-! ### `Node.slice` never dies, and what it returns is a well-formed slice -/
+
+theorem sliceHere_no_internal (level : List Node) (f t : Nat) (ht : t ≤ fsize level) :
+    sliceHere level f t ≠ .error .internal := by
+  intro h
+  unfold sliceHere at h
+  split at h
+  · simp at h
+  · rename_i e he
+    simp at h; subst h
+    exact fcut_no_internal level f t ht he
+
+theorem sliceScan_no_internal : ∀ (rest level : List Node) (f0 t0 f t : Nat),
+    t0 ≤ fsize level → sliceScan level f0 t0 rest f t ≠ .error .internal
+  | [], level, f0, t0, f, t, ht0 => by
+    unfold sliceScan
+    exact sliceHere_no_internal level f0 t0 ht0
+  | n :: ns, level, f0, t0, f, t, ht0 => by
+    have here := sliceHere_no_internal level f0 t0 ht0
+    rw [sliceScan_cons]
+    split
+    · exact here
+    · split
+      · exact sliceScan_no_internal ns level f0 t0 _ _ ht0
+      · cases n with
+        | text s m => exact here
+        | leaf ty a m => exact here
+        | elem ty a m kids =>
+          simp only
+          split
+          · rename_i hlt
+            simp only [Node.size_elem] at hlt
+            exact sliceScan_no_internal kids kids _ _ _ _ (by omega)
+          · exact here
+
+theorem sliceKids_no_internal (kids : List Node) (f t : Nat) :
+    sliceKids kids f t ≠ .error .internal := by
+  unfold sliceKids
+  split
+  · simp
+  · split
+    · simp
+    · rename_i hg
+      simp only [inRange, Bool.or_eq_true, Bool.not_eq_true', decide_eq_false_iff_not,
+        decide_eq_true_eq, not_or, Nat.not_lt, Decidable.not_not] at hg
+      exact sliceScan_no_internal kids kids f t f t hg.1.2
+
+theorem sliceHere_wf (level : List Node) (f t : Nat) (s : Slice) (hft : f < t) (ht : t ≤ fsize level)
+    (h : sliceHere level f t = .ok s) : s.wf = true := by
+  unfold sliceHere at h
+  split at h
+  · rename_i c hc
+    simp at h; subst h
+    have := fcut_spine level c f t hft ht hc
+    simp [Slice.wf, this.1, this.2]
+  · simp at h
+
+theorem sliceScan_wf : ∀ (rest level : List Node) (f0 t0 f t : Nat) (s : Slice),
+    f0 < t0 → t0 ≤ fsize level → f < t →
+    sliceScan level f0 t0 rest f t = .ok s → s.wf = true
+  | [], level, f0, t0, f, t, s, h0, ht0, _, h => by
+    unfold sliceScan at h
+    exact sliceHere_wf level f0 t0 s h0 ht0 h
+  | n :: ns, level, f0, t0, f, t, s, h0, ht0, hft, h => by
+    have here := sliceHere_wf level f0 t0 s h0 ht0
+    rw [sliceScan_cons] at h
+    split at h
+    · exact here h
+    · rename_i hf
+      split at h
+      · exact sliceScan_wf ns level f0 t0 _ _ s h0 ht0 (by omega) h
+      · cases n with
+        | text s' m => exact here h
+        | leaf ty a m => exact here h
+        | elem ty a m kids =>
+          simp only at h
+          split at h
+          · rename_i hlt
+            simp only [Node.size_elem] at hlt
+            exact sliceScan_wf kids kids _ _ _ _ s (by omega) (by omega) (by omega) h
+          · exact here h
+
+/-- a slice cut from any node (valid or not, normal or not) has open depths within its spines -/
+theorem sliceKids_wf (kids : List Node) (f t : Nat) (s : Slice) (h : sliceKids kids f t = .ok s) :
+    s.wf = true := by
+  unfold sliceKids at h
+  split at h
+  · simp at h; subst h; simp [Slice.empty, Slice.wf]
+  · rename_i hne
+    split at h
+    · simp at h
+    · rename_i hg
+      simp only [inRange, Bool.or_eq_true, Bool.not_eq_true', decide_eq_false_iff_not,
+        decide_eq_true_eq, not_or, Nat.not_lt, Decidable.not_not] at hg
+      exact sliceScan_wf kids kids f t f t s (by omega) hg.1.2 (by omega) h
+
+/-! ### heads and tails kept by `addNode` / `fappend` / `fromArray` / `fcut` -/
+
+theorem addNode_elem (t : List Node) (ty : TypeId) (a : Attrs) (m : Marks) (k : List Node) :
+    addNode t (.elem ty a m k) = t ++ [.elem ty a m k] := by
+  unfold addNode
+  split
+  · rename_i h; simp at h
+  · rfl
+
+theorem addNode_cons_elem (ty : TypeId) (a : Attrs) (m : Marks) (k x : List Node) (c : Node) :
+    ∃ x', addNode (.elem ty a m k :: x) c = .elem ty a m k :: x' := by
+  cases x with
+  | nil =>
+    refine ⟨[c], ?_⟩
+    unfold addNode
+    split
+    · rename_i h; simp at h
+    · rfl
+  | cons y ys =>
+    unfold addNode
+    split
+    · split
+      · rename_i s1 m1 s2 m2 _ _
+        exact ⟨(y :: ys).dropLast ++ [Node.text (s1 ++ s2) m1], by
+          simp only [List.dropLast_cons_cons, List.cons_append]⟩
+      · exact ⟨_, rfl⟩
+    · exact ⟨_, rfl⟩
+
+theorem addNodes_cons_elem (ty : TypeId) (a : Attrs) (m : Marks) (k : List Node) :
+    ∀ (cs x : List Node), ∃ x', addNodes (.elem ty a m k :: x) cs = .elem ty a m k :: x'
+  | [], x => ⟨x, rfl⟩
+  | c :: cs, x => by
+    obtain ⟨x1, h1⟩ := addNode_cons_elem ty a m k x c
+    obtain ⟨x2, h2⟩ := addNodes_cons_elem ty a m k cs x1
+    exact ⟨x2, by simp only [addNodes, List.foldl_cons] at h2 ⊢; rw [h1]; exact h2⟩
+
+theorem fromArray_cons_elem (ty : TypeId) (a : Attrs) (m : Marks) (k l : List Node) :
+    ∃ x', fromArray (.elem ty a m k :: l) = .elem ty a m k :: x' := by
+  obtain ⟨x, hx⟩ := addNodes_cons_elem ty a m k l []
+  refine ⟨x, ?_⟩
+  simp only [fromArray, addNodes, List.foldl_cons] at hx ⊢
+  rw [show addNode [] (Node.elem ty a m k) = [Node.elem ty a m k] from by simp [addNode_elem]]
+  exact hx
+
+theorem addNodes_snoc_elem (ty : TypeId) (a : Attrs) (m : Marks) (k : List Node) :
+    ∀ (cs t : List Node), ∃ x', addNodes t (cs ++ [.elem ty a m k]) = x' ++ [.elem ty a m k]
+  | [], t => ⟨t, by simp [addNodes, addNode_elem]⟩
+  | c :: cs, t => by
+    obtain ⟨x, hx⟩ := addNodes_snoc_elem ty a m k cs (addNode t c)
+    exact ⟨x, by simpa [addNodes] using hx⟩
+
+theorem fromArray_snoc_elem (ty : TypeId) (a : Attrs) (m : Marks) (k l : List Node) :
+    ∃ x', fromArray (l ++ [.elem ty a m k]) = x' ++ [.elem ty a m k] :=
+  addNodes_snoc_elem ty a m k l []
+
+theorem fappend_cons_elem (ty : TypeId) (a : Attrs) (m : Marks) (k x b : List Node) :
+    ∃ x', fappend (.elem ty a m k :: x) b = .elem ty a m k :: x' := by
+  cases b with
+  | nil => exact ⟨x, rfl⟩
+  | cons c rest =>
+    obtain ⟨x1, h1⟩ := addNode_cons_elem ty a m k x c
+    exact ⟨x1 ++ rest, by simp [fappend, h1]⟩
+
+theorem fappend_snoc_elem (ty : TypeId) (a : Attrs) (m : Marks) (k x b : List Node) :
+    ∃ x', fappend x (b ++ [.elem ty a m k]) = x' ++ [.elem ty a m k] := by
+  cases b with
+  | nil =>
+    by_cases hx : x.isEmpty
+    · exact ⟨[], by simp [fappend, hx]⟩
+    · exact ⟨x, by simp [fappend, hx, addNode_elem]⟩
+  | cons c rest =>
+    by_cases hx : x.isEmpty
+    · exact ⟨c :: rest, by simp [fappend, hx]⟩
+    · exact ⟨addNode x c ++ rest, by simp [fappend, hx]⟩
+
+/-- one step of the cut loop: the result is the tail's result, possibly with one node in front -/
+theorem fcutLoop_cons_inv {n : Node} {ns : List Node} {f t : Nat} {c : List Node}
+    (h : fcutLoop (n :: ns) f t = .ok c) (ht : t ≠ 0) :
+    ∃ rest, fcutLoop ns (f - n.size) (t - n.size) = .ok rest ∧ (c = rest ∨ ∃ x, c = x :: rest) := by
+  rw [fcutLoop, if_neg ht] at h
+  simp only at h
+  cases hr : fcutLoop ns (f - n.size) (t - n.size) with
+  | error e =>
+    rw [hr] at h
+    split at h
+    · split at h
+      · cases n with
+        | text s m =>
+          simp only at h
+          split at h <;> simp at h
+        | leaf ty a m => simp at h
+        | elem ty a m kids =>
+          simp only at h
+          split at h <;> simp at h
+      · simp at h
+    · simp at h
+  | ok rest =>
+    rw [hr] at h
+    refine ⟨rest, rfl, ?_⟩
+    split at h
+    · split at h
+      · cases n with
+        | text s m =>
+          simp only at h
+          split at h
+          · simp at h; exact .inr ⟨_, h.symm⟩
+          · simp at h
+        | leaf ty a m => simp at h; exact .inr ⟨_, h.symm⟩
+        | elem ty a m kids =>
+          simp only at h
+          split at h
+          · simp at h; exact .inr ⟨_, h.symm⟩
+          · simp at h
+      · simp at h; exact .inr ⟨_, h.symm⟩
+    · simp at h; exact .inl h.symm
+
+/-- a cut that ends at the end of the list and starts before its last child keeps that child whole -/
+theorem fcutLoop_keeps_last (e : Node) (he : 0 < e.size) : ∀ (init : List Node) (d : Nat) (r : List Node),
+    d ≤ fsize init → fcutLoop (init ++ [e]) d (fsize init + e.size) = .ok r → ∃ r', r = r' ++ [e]
+  | [], d, r, hd, h => by
+    have : d = 0 := by simpa using hd
+    subst this
+    simp only [List.nil_append, fsize_nil, Nat.zero_add] at h
+    obtain ⟨rest, hr, rfl⟩ := fcutLoop_whole_inv h he (Nat.le_refl _)
+    simp [fcutLoop] at hr
+    subst hr
+    exact ⟨[], rfl⟩
+  | n :: init, d, r, hd, h => by
+    simp only [fsize_cons] at hd h
+    obtain ⟨rest, hr, hc⟩ := fcutLoop_cons_inv h (by omega)
+    have e1 : n.size + fsize init + e.size - n.size = fsize init + e.size := by omega
+    rw [e1] at hr
+    obtain ⟨r', rfl⟩ := fcutLoop_keeps_last e he init (d - n.size) rest (by omega) hr
+    rcases hc with rfl | ⟨x, rfl⟩
+    · exact ⟨r', rfl⟩
+    · exact ⟨x :: r', rfl⟩
+
+theorem fcut_keeps_last (e : Node) (he : 0 < e.size) (init : List Node) (d : Nat) (r : List Node)
+    (hd : d ≤ fsize init) (h : fcut (init ++ [e]) d (fsize (init ++ [e])) = .ok r) :
+    ∃ r', r = r' ++ [e] := by
+  have hsz : fsize (init ++ [e]) = fsize init + e.size := by rw [fsize_append]; simp
+  unfold fcut at h
+  split at h
+  · simp at h; exact ⟨init, h.symm⟩
+  · rw [if_neg (by omega), hsz] at h
+    exact fcutLoop_keeps_last e he init d r hd h
+
+theorem fcut_keeps_head (n : Node) (ns : List Node) (d : Nat) (l : List Node) (hn : 0 < n.size)
+    (hd : n.size ≤ d) (h : fcut (n :: ns) 0 d = .ok l) : ∃ l', l = n :: l' := by
+  unfold fcut at h
+  split at h
+  · simp at h; exact ⟨ns, h.symm⟩
+  · rw [if_neg (by omega)] at h
+    obtain ⟨rest, _, rfl⟩ := fcutLoop_whole_inv h hn hd
+    exact ⟨rest, rfl⟩
+
+theorem spineL_cons_congr (p : Node) (x y : List Node) : spineL (p :: x) = spineL (p :: y) := by
+  cases p <;> simp [spineL]
+
+theorem spineR_append_ne_nil (a : List Node) : ∀ ns : List Node, ns ≠ [] → spineR (a ++ ns) = spineR ns := by
+  intro ns hne
+  have hd := List.dropLast_concat_getLast hne
+  rw [← hd, ← List.append_assoc, spineR_concat, spineR_concat]
+
 end PM
